@@ -297,3 +297,13 @@ package pointindex
 //@   prelude arith tmsaxis
 //@   requires indexableIf0(tms, deepestTMID)
 //@   ensures[C14] err == nil ==> hasKey(tms.TileMatrices, 0)
+
+// C17/C02: the keys of the four children of a pixel are 4z, 4z+1, 4z+2, 4z+3 (z < 2^62 so that they fit).
+// Proved from the contracts of FromZ / MustToZ and the bit-vector lemmas of package morton (transferred to integers).
+//@ func getQuadrantZs
+//@   prelude morton arith
+//@   requires parentZ <= 0x3FFFFFFFFFFFFFFF
+//@   use small_key(parentZ) && onto(parentZ)
+//@   use children_arith(even_bits(parentZ), even_bits(parentZ >> 1), 0, 0) && children_arith(even_bits(parentZ), even_bits(parentZ >> 1), 1, 0)
+//@   use children_arith(even_bits(parentZ), even_bits(parentZ >> 1), 0, 1) && children_arith(even_bits(parentZ), even_bits(parentZ >> 1), 1, 1)
+//@   ensures[C02,C17] result[0] == 4 * parentZ && result[1] == 4 * parentZ + 1 && result[2] == 4 * parentZ + 2 && result[3] == 4 * parentZ + 3
